@@ -9,7 +9,8 @@
      rows G anc      the samples' (data, ancestry) rows
      hap_okb / hap_presentb   every variant and allele / every variant of the haplotype exists in G
      spec_col / spec_mat      the cell-by-cell specification as a column / matrix *)
-From HV Require Import Prelude Tracts C04_Model C04_Check C04_Proofs C04_ProofsSet C04_ProofsFile C04_ProofsSpec C04_ProofsAnc C04_Legacy.
+From HV Require Import Prelude Tracts C04_Model C04_Check C04_Proofs C04_ProofsSet C04_ProofsFile C04_ProofsSpec C04_ProofsAnc C04_Legacy C04_ProofsPerm.
+From Coq Require Import Permutation.
 
 (* -- meaning of the two look-ups the statements are phrased with ------------------------- *)
 
@@ -280,3 +281,23 @@ Theorem C04_set_cells_spec : forall G (anc : bool) H0 recs M,
       /\ (b1 = true <-> strand_prop G anc h (snd (fst da)) (snd (snd da))).
 Proof. exact set_cells_spec_lemma. Qed.
 Print Assumptions C04_set_cells_spec.
+
+(* The order in which a haplotype lists its variants (the order of its V lines in the .hap file,
+   which need not be the order of the genotype records) does not matter: the single-haplotype
+   transforms give the same column, or the same error, for every permutation of the list. *)
+Theorem C04_hap_transform_vline_order_irrelevant : forall G (anc : bool) h h',
+  has_dup (map gv_id (g_vars G)) = false ->
+  Permutation (h_vars h) (h_vars h') -> h_anc h = h_anc h' ->
+  (if anc then hap_transform_anc h G else hap_transform h G)
+  = (if anc then hap_transform_anc h' G else hap_transform h' G).
+Proof. exact hap_transform_perm. Qed.
+Print Assumptions C04_hap_transform_vline_order_irrelevant.
+
+(* content: the two-variant haplotype of the example with its V lines in reverse order of the
+   genotype records (its alleles are an ALT of the first and the second ALT of the other record) *)
+Example C04_vline_order_example :
+  hap_transform (mkh 10 1 10 21 8 [mkhv 4 7; mkhv 1 3] false) G_ex = Ok [(true, false); (false, true)]
+  /\ hap_transform (mkh 10 1 10 21 8 [mkhv 1 3; mkhv 4 7] false) G_ex = Ok [(true, false); (false, true)]
+  /\ hap_transform_anc (mkh 10 1 10 21 8 [mkhv 4 7; mkhv 1 3] false) G_ex = Ok [(true, false); (false, true)].
+Proof. vm_compute. repeat split; reflexivity. Qed.
+Print Assumptions C04_vline_order_example.
